@@ -6,40 +6,77 @@ from props import reg_common as rc
 
 HARNESS_BINS = ["vh_reg"]
 PROFILES = ["mixed", "mixed", "wedge", "senderr", "timeouts"]
+NATS_PROFILES = ["mixed", "status", "wedge", "noresp", "timeouts", "mixed", "puberr"]
 PROP = "C01"
 
 
-def run(ctx, br, profiles=None, prop=None):
+def run(ctx, br, profiles=None, prop=None, nats_profiles=None):
     prop = prop or PROP
     quick = ctx.tier == "quick"
     n = 150 if quick else 4000
     reqs = rc.gen_reqs(ctx.rng, n, profiles or PROFILES, max_callers=(6 if quick else 12),
                        steps=((25, 60) if quick else (30, 120)))
+    n_nats = 150 if quick else 3000
+    reqs += rc.gen_nats_reqs(ctx.rng, n_nats, nats_profiles or NATS_PROFILES, max_callers=(6 if quick else 10),
+                             steps=((25, 60) if quick else (30, 120)))
     resps = rc.run_reg(reqs)
     bad = 0
     for q, r in zip(reqs, resps):
         why = rc.oracle(q, r)
         if why:
             bad += 1
-            ctx.violation("%s oracle: %s" % (prop, why), {"schedule": q, "events": r.get("events"), "opids": r.get("opids")})
+            ctx.violation("%s oracle (%s transport): %s" % (prop, q.get("transport", "adapter"), why),
+                          {"schedule": q, "events": r.get("events"), "opids": r.get("opids"), "datakinds": r.get("datakinds")})
     ok = [(q, r) for q, r in zip(reqs, resps) if not r.get("panic") and not r.get("hang")]
     verdicts = vlib.run_judge(ctx.rundir, "JRegistry", "judge", [rc.tok_case(q, r) for q, r in ok])
     mism = 0
     for (q, r), v in zip(ok, verdicts):
         if v < 0:
             mism += 1
-            rep = {"schedule": q, "events": r["events"], "opids": r["opids"], "reglen": r["reglen"], "fresh": r["fresh"]}
+            rep = {"schedule": q, "events": r["events"], "opids": r["opids"], "reglen": r["reglen"], "fresh": r["fresh"],
+                   "datakinds": r.get("datakinds")}
             if not rc.oracle(q, r):
                 rep["no_failing_input_found"] = True
                 rep["broken"] = "correspondence JRegistry.judge (Model/Registry.v does not accept this observed schedule)"
-            ctx.violation("%s correspondence: the model does not reproduce an observed schedule" % prop, rep)
+            ctx.violation("%s correspondence (%s transport): the model does not reproduce an observed schedule"
+                          % (prop, q.get("transport", "adapter")), rep)
     kinds = {}
     dup = unknown = late = drops = 0
-    for r in resps:
+    nats = {"schedules": 0, "outcomes": {}, "register_errors": 0, "malformed_opid_refused": 0, "empty_frames": 0, "not_open": 0, "oversize_after_register": 0,
+            "publish_errors": 0, "status_503_found": 0, "status_503_miss": 0, "status_503_from_server": 0,
+            "discarded_messages": 0, "frames_into_oversize_or_parked_request": 0}
+    for q, r in zip(reqs, resps):
         seen_for = {}
         done = set()
+        parked = set()
+        isn = q.get("transport") == "nats"
+        if isn:
+            nats["schedules"] += 1
+            nats["status_503_from_server"] += r.get("server_status", 0)
         for e in r.get("events") or []:
             kinds[e[0]] = kinds.get(e[0], 0) + 1
+            if isn:
+                if e[0] == 8:
+                    nats["outcomes"][str(e[2])] = nats["outcomes"].get(str(e[2]), 0) + 1
+                    nats["oversize_after_register"] += e[2] == 6
+                elif e[0] == 5 and e[3] == 1 and e[1] in parked:
+                    nats["frames_into_oversize_or_parked_request"] += 1
+                elif e[0] == 2:
+                    parked.discard(e[1])
+                elif e[0] == 1:
+                    if e[2] == 0:
+                        parked.add(e[1])
+                    nats["register_errors"] += e[2] == 1
+                    nats["malformed_opid_refused"] += e[2] == 1 and r["opids"][e[1]] == "-1"
+                    nats["empty_frames"] += e[2] == 2
+                elif e[0] == 9:
+                    nats["not_open"] += 1
+                elif e[0] == 10:
+                    nats["publish_errors"] += 1
+                elif e[0] == 11:
+                    nats["status_503_found" if e[3] == 1 else "status_503_miss"] += 1
+                elif e[0] == 12:
+                    nats["discarded_messages"] += 1
             if e[0] == 8:
                 done.add(e[1])
             if e[0] == 5:
@@ -53,17 +90,25 @@ def run(ctx, br, profiles=None, prop=None):
                         late += 1
             if e[0] == 6 and e[1] == 0:
                 drops += 1
-    distinct = len({json.dumps(r.get("events")) for r in resps if len({e[0] for e in r.get("events") or []}) >= 5})
+    distinct = len({json.dumps([q.get("transport", "adapter"), r.get("events")]) for q, r in zip(reqs, resps)
+                    if len({e[0] for e in r.get("events") or []}) >= 5})
     ctx.assumptions += ["sync.RWMutex gives mutual exclusion and Go channels behave as specified; goroutines are cut at the verif yield "
                         "points (after Register, between lookup and channel send, after the select) and at the scripted transport's Write",
-                        "op ids of concurrently used FContexts are pairwise distinct (C17)"]
+                        "op ids of concurrently used FContexts are pairwise distinct (C17) - except in the NATS schedules that share an "
+                        "FContext on purpose, where the theorems that need no distinctness apply",
+                        "NATS: the embedded server delivers each published message once and in publication order to the inbox "
+                        "subscription; nats.go runs one callback goroutine per subscription (the single reader)"]
     return {
         "evaluations": len(reqs),
         "distinct_nontrivial": distinct,
         "rule": "seeded random walks over the events the IMPLEMENTATION offers (1..%d concurrent callers on one adapter transport; arrivals: "
                 "responses in any order, duplicates, unknown op ids, late frames; lookup/deliver/unregister interleavings forced through "
-                "yield points; send ok / send failure; short timeouts); every event and its observed effect is replayed on the model; "
-                "non-trivial = at least 5 different event kinds; distinct by event log" % (6 if quick else 12),
+                "yield points; send ok / send failure; short timeouts) and the same on one NATS transport against an embedded server "
+                "(responses / duplicates / unknown ids / late frames published onto <inbox>.<token>, status 503 messages from the harness "
+                "and from the server itself (no responders), messages that must be discarded before dispatch, empty and oversize "
+                "requests, FContexts shared by concurrent requests (Register error), publish errors, requests on a closed transport); "
+                "every event and its observed effect is replayed on the model; "
+                "non-trivial = at least 5 different event kinds; distinct by transport + event log" % (6 if quick else 12),
         "traces_validated_against_impl": sum(1 for v in verdicts if v >= 0),
         "trace_steps_validated": sum(v for v in verdicts if v >= 0),
         "judge_mismatches": mism,
@@ -71,5 +116,7 @@ def run(ctx, br, profiles=None, prop=None):
         "hangs_not_reproduced_with_5x_patience": rc.HANGS_NOT_REPRODUCED,
         "event_kind_histogram": {str(k): v for k, v in sorted(kinds.items())},
         "duplicate_arrivals": dup, "unknown_opid_arrivals": unknown, "late_arrivals": late, "dropped_duplicates": drops,
-        "samples": [{"schedule": reqs[0], "events": resps[0].get("events")[:25]}],
+        "nats": nats,
+        "samples": [{"schedule": reqs[0], "events": resps[0].get("events")[:25]},
+                    {"schedule": reqs[-1], "events": resps[-1].get("events")[:25]}],
     }
